@@ -42,8 +42,10 @@ func toTwosComplement(res, x *big.Int, targetBitSize uint) *big.Int {
 // toTwosComplement converts `res` to the big.Int representation from the two's complement format of a
 // signed integer.
 // `res` is returned and can be positive or negative.
-func fromTwosComplement(res *big.Int) *big.Int {
-	bytes := res.Bytes()
+func fromTwosComplement(res *big.Int, bitSize uint) *big.Int {
+	// Use all bytes of the representation, not only the significant ones,
+	// as the sign is determined by the most significant bit of the full bit size.
+	bytes := res.FillBytes(make([]byte, bitSize/8))
 	return values.BigEndianBytesToSignedBigInt(bytes)
 }
 
@@ -668,7 +670,7 @@ func (v Int128Value) BitwiseLeftShift(context ValueStaticTypeContext, other Inte
 		res = toTwosComplement(res, v.BigInt, 128)
 		res = res.Lsh(res, uint(o.BigInt.Uint64()))
 		res = truncate(res, 128/bits.UintSize)
-		return fromTwosComplement(res)
+		return fromTwosComplement(res, 128)
 	}
 
 	return NewInt128ValueFromBigInt(context, valueGetter)
